@@ -96,8 +96,9 @@ CLAIMS = {
                  "listed operation sequences (quick: hand-picked histories of up to 5 operations; thorough: additionally EVERY sequence of 1-3 operations over "
                  "small operation alphabets, 220 generated histories) the two stateful inputs of Store::search equal those of a freshly built store, for ALL "
                  "ratings and ids. Titles are concrete one/two-letter words.",
-        "note": STD_NOTE + " Two genuine defects were found this way and repaired in /repo (f3dba01, ece0e74). Histories are enumerated, not exhaustive; "
-                           "Store::search itself is not executed.",
+        "note": STD_NOTE + " Two genuine defects were found this way and repaired in /repo (f3dba01, ece0e74). Histories are enumerated (thorough: exhaustive "
+                           "up to length 3 over small alphabets); records without words and Store::search itself are not executed. Fragile under refactoring: "
+                           "code that grows zero-capacity vectors with symbolic elements trips a Kani artefact and the check ends inconclusive (exit 2), never a violation.",
     },
     "C12": {
         "level": "Store level. Solver-decided on the real Store::top_ixs: for 1-3 records with concrete titles (equal titles included) and ALL ratings the empty-query "
